@@ -236,7 +236,7 @@ def effective_env(spec):
     offsets are entered under their own names after the parameters.  -> {name: (dim|None, kind)}, aux entries"""
     env = {}
     for e in spec["pars"] + (spec["offsets"] if spec["offsets_arg"] in ("list", "tuple") else []):
-        env[e["name"]] = (None if e["unit"] is None else UNITS[e["unit"]], KIND_OF[e["dk"]])
+        env[e["name"]] = (None if e["unit"] is None else UNITS[e["unit"]], KIND_OF[e["dk"]], not e.get("misnamed"))
     return env
 
 
@@ -257,9 +257,9 @@ def wellformed_oracle(spec):
         env = {}
         if spec["pars"]:
             e = spec["pars"][0]
-            env[e["name"]] = (None if e["unit"] is None else UNITS[e["unit"]], KIND_OF[e["dk"]])
+            env[e["name"]] = (None if e["unit"] is None else UNITS[e["unit"]], KIND_OF[e["dk"]], not e.get("misnamed"))
         for e in spec["offsets"]:
-            env[e["name"]] = (None if e["unit"] is None else UNITS[e["unit"]], KIND_OF[e["dk"]])
+            env[e["name"]] = (None if e["unit"] is None else UNITS[e["unit"]], KIND_OF[e["dk"]], not e.get("misnamed"))
     else:
         env = effective_env(spec)
     q = len(spec["offsets"])
@@ -271,6 +271,8 @@ def wellformed_oracle(spec):
             return False, f"{n} has no unit"
         if env[n][0] != canon_dim(n):
             return False, f"{n} has a unit of the wrong dimension"
+        if len(env[n]) > 2 and not env[n][2]:
+            return False, f"the variable given for {n} has another name in the pymc model (the likelihood helper would use model['{n}'])"
     for n in need[5:]:
         if not (env[n][1] == "normal" or (env[n][1] == "fcm" and n == "K")):
             return False, f"linear parameter {n} is not an independent Normal (FixedCompanionMass: K only)"
@@ -279,7 +281,8 @@ def wellformed_oracle(spec):
 
 def model_op(spec):
     def par(e):
-        return dict(name=e["name"], unit=None if e["unit"] is None else list(UNITS[e["unit"]]), kind=KIND_OF[e["dk"]])
+        return dict(name=e["name"], unit=None if e["unit"] is None else list(UNITS[e["unit"]]), kind=KIND_OF[e["dk"]],
+                    named=not e.get("misnamed"))
     try:
         poly = int(spec["poly"])
     except Exception:
@@ -298,8 +301,11 @@ def run_prior(spec):
     import pymc as pm
     import thejoker as tj
     models = [pm.Model(), pm.Model()]
-    pars = [(e["name"], attach_unit(make_var(e["name"], e["dk"], models), e["unit"], e["name"])) for e in spec["pars"]]
-    offs = [attach_unit(make_var(e["name"], e["dk"], models), e["unit"], e["name"]) for e in spec["offsets"]]
+    def vname(e):
+        # a variable stored under the key e["name"] but called something else in the pymc model
+        return e["name"] + "_alt" if e.get("misnamed") else e["name"]
+    pars = [(e["name"], attach_unit(make_var(vname(e), e["dk"], models), e["unit"], vname(e))) for e in spec["pars"]]
+    offs = [attach_unit(make_var(vname(e), e["dk"], models), e["unit"], vname(e)) for e in spec["offsets"]]
     kw = {}
     form = spec["form"]
     if form == "dict":
@@ -391,6 +397,12 @@ def single_mutations(spec, rng):
             s = copy_spec(spec)
             entry(s, n)["unit"] = str(rng.choice(BY_DIM[d]))
             out.append(("dim" if d != canon_dim(n) else "unit-same-dim", s))
+        if not n.startswith("dv0_") and entry(spec, n)["dk"] in REGISTERS:
+            # the key and the name of the variable differ (a second prior in one pymc model needs other variable names)
+            s = copy_spec(spec)
+            entry(s, n)["misnamed"] = True
+            s["form"] = str(rng.choice(["dict", "pairs"]))
+            out.append(("misnamed", s))
         lin = n == "K" or bool(_TREND.fullmatch(n)) or bool(_OFFSET.fullmatch(n))
         for dk in LIN_BAD_KINDS + ["normal", "fcm"]:
             s = copy_spec(spec)
@@ -674,7 +686,7 @@ def default_oracle(d):
             return False, f"no usable sigma_v for {n}"
         env[n] = (UNITS[svd[n]], "normal")
     for e in d["user"] + d["offsets"]:
-        env[e["name"]] = (None if e["unit"] is None else UNITS[e["unit"]], KIND_OF[e["dk"]])
+        env[e["name"]] = (None if e["unit"] is None else UNITS[e["unit"]], KIND_OF[e["dk"]], not e.get("misnamed"))
     need = expected_names(p, len(d["offsets"]))
     for n in need:
         if n not in env:
@@ -683,6 +695,8 @@ def default_oracle(d):
             return False, f"{n} has no unit"
         if env[n][0] != canon_dim(n):
             return False, f"{n} has a unit of the wrong dimension"
+        if len(env[n]) > 2 and not env[n][2]:
+            return False, f"the variable given for {n} has another name in the pymc model (the likelihood helper would use model['{n}'])"
     for n in need[5:]:
         if not (env[n][1] == "normal" or (env[n][1] == "fcm" and n == "K")):
             return False, f"linear parameter {n} is not an independent Normal (FixedCompanionMass: K only)"
@@ -1000,7 +1014,7 @@ def post(ctx):
                                     "dimension in the pool/each prior kind) of their base prior")
     for tag, n in (("omit", 20), ("nounit", 20), ("dim", 150), ("kind-linear-bad", 60), ("kind-linear-ok", 6), ("kind-nonlinear", 50),
                    ("offset-name", 5), ("poly-shift", 6), ("poly-value", 10), ("multi", 50), ("shadow-bad", 1), ("dup-bad-last", 2),
-                   ("dup-bad-first", 2)):
+                   ("dup-bad-first", 2), ("misnamed", 10)):
         ctx.require(f"prior mutation '{tag}'", c[f"prior:{tag}"], n)
     ctx.require("admissible priors", c["prior:admissible"], 100)
     ctx.require("inadmissible priors", c["prior:inadmissible"], 300)
